@@ -145,7 +145,9 @@ def wm_reset_family(kind):
                 for again in (1, 0):        # again = 0: the watermark is set only once (control)
                     wms = [wm(H), wm(0), wm(H)] if again else [wm(H)]
                     en = [{"a": "enable", "e": 2, "m": 2}]
-                    sc = (en + wms if first else wms + en) + [{"a": "write", "e": 1, "n": H + 2}] + lp() + \
+                    # no callbacks on the reader: a read callback that does not drain is re-run by
+                    # bufferevent_inbuf_wm_check for as long as the input is at the mark
+                    sc = [{"a": "clr", "e": 2}] + (en + wms if first else wms + en) + [{"a": "write", "e": 1, "n": H + 2}] + lp() + \
                          [{"a": "read", "e": 2, "n": k}] + lp() + [{"a": "read", "e": 2, "n": 99}] + lp()
                     out.append(sc)
     return out
